@@ -589,6 +589,81 @@ def check_error_case(case: dict[str, Any], res: ShardResult | None) -> list[tupl
 # ------------------------------------------------------------------ harness interface
 
 
+# ------------------------------------------------------------------ parents loaded per tenant through a caching loader
+
+TENANTS = (None, "acme", "acme/eu", "acme%2Feu", "acme%252Feu")
+TENANT_PAGES = ("page", "eu/page", "inc")
+
+
+def _tenant_sources() -> dict[tuple[Any, str], str]:
+    """Every tenant has its own `base`, `eu/base`, and pages that extend them (the documented per-tenant layout: the
+    namespace selects the source)."""
+    out: dict[tuple[Any, str], str] = {}
+    for t in TENANTS:
+        tag = "shared" if t is None else t
+        out[(t, "base")] = "[" + tag + ":base {% block b %}b0{% endblock %}]"
+        out[(t, "eu/base")] = "[" + tag + ":eu/base {% block b %}b1{% endblock %}]"
+        out[(t, "page")] = "{% extends 'base' %}{% block b %}P{{ block.super }}{% endblock %}"
+        out[(t, "eu/page")] = "{% extends 'eu/base' %}{% block b %}Q{{ block.super }}{% endblock %}"
+        out[(t, "inc")] = "{% include 'page' %}|{% include 'eu/page' %}"
+    return out
+
+
+def tenant_histories(tier: str) -> list[tuple[tuple[Any, str, str], ...]]:
+    ops = [(t, pg, m) for t in TENANTS for pg in TENANT_PAGES for m in ("sync", "async")]
+    ops1 = [o for o in ops if o[2] == "sync"]
+    hist: list[tuple] = [(a,) for a in ops] + [(a, b) for a in ops1 for b in ops]
+    if tier != "quick":
+        hist += [(a, b, c) for a in ops1 for b in ops1 for c in ops1]
+    return hist
+
+
+def check_tenants(hist: tuple, res: ShardResult | None) -> list[tuple[str, Any, Any, Any]]:
+    """A history of page renders for several tenants through ONE caching loader whose cache is keyed by the tenant: every
+    render resolves its blocks against the rendering tenant's own parent, exactly as with a loader that caches nothing."""
+    from liquid2.builtin.loaders.mixins import CachingLoaderMixin
+    from liquid2.exceptions import TemplateNotFoundError
+    from liquid2.loader import BaseLoader
+    from liquid2.loader import TemplateSource
+
+    srcs = _tenant_sources()
+
+    class TenantLoader(BaseLoader):
+        def get_source(self, env, template_name, *, context=None, **kwargs):  # noqa: ANN001, ANN202, ANN003
+            t = kwargs.get("tenant", context.globals.get("tenant") if context is not None else None)
+            try:
+                return TemplateSource(srcs[(t, template_name)], template_name, None)
+            except KeyError as e:
+                raise TemplateNotFoundError(template_name) from e
+
+    class CachingTenantLoader(CachingLoaderMixin, TenantLoader):
+        def __init__(self) -> None:
+            super().__init__(auto_reload=True, namespace_key="tenant", capacity=50)
+
+    out: list[tuple[str, Any, Any, Any]] = []
+    envs = {"cached": Environment(loader=CachingTenantLoader()), "plain": Environment(loader=TenantLoader())}
+    for step, (t, pg, mode) in enumerate(hist):
+        got = {}
+        for k, env in envs.items():
+            g = {} if t is None else {"tenant": t}
+            kw = {} if t is None else {"tenant": t}
+            if mode == "sync":
+                got[k] = _safe(lambda env=env: env.get_template(pg, globals=g, **kw).render())
+            else:
+                async def go(env: Any = env) -> str:
+                    tm = await env.get_template_async(pg, globals=g, **kw)
+                    return await tm.render_async()
+
+                got[k] = _async(go())
+        if res is not None:
+            res.evaluations += 2
+            res.outcomes.add(h64(list(got["plain"])))
+        if got["cached"] != got["plain"]:
+            out.append((f"C08:tenant-cache-wrong-parent:{mode}", {"tenant_history": [list(o) for o in hist], "step": step}, got["plain"], got["cached"]))
+            break
+    return out
+
+
 def plan(tier: str, seed: int):
     shards: list[Any] = []
     total = 0
@@ -613,6 +688,11 @@ def plan(tier: str, seed: int):
         shards.append(("comp", tier, lo, hi))
     subs["compositions"] = len(comp)
     total += len(comp)
+    th = tenant_histories(tier)
+    for lo, hi in chunks(len(th), 64):
+        shards.append(("tenants", tier, lo, hi))
+    subs["tenant-histories"] = len(th)
+    total += len(th)
     meta = {"space_size": total + len(errs), "subspaces": subs, "bounds": {"entries": list(ENTRIES), "modes": list(MODES)}}
     return shards, meta
 
@@ -638,6 +718,15 @@ def run_shard(shard) -> ShardResult:
         if lo == 0:
             ch = chain_at(per, depth, min(size - 1, 12345))
             res.samples.append({"chain": {f"t{k}": template_source(k, depth, ch[k][0], names, ch[k][1]) for k in range(depth)}, "model": model_render(ch, names)})
+    elif shard[0] == "tenants":
+        _, tier, lo, hi = shard
+        for hist in tenant_histories(tier)[lo:hi]:
+            res.cases += 1
+            for sig, case, exp, obs in check_tenants(hist, res):
+                res.violation(sig, {"part": "tenants", "tier": tier, **case}, exp, obs)
+            res.states.add(h64(["tenants", [list(o) for o in hist]]))
+            res.nontrivial.add(h64(["tenants", [list(o) for o in hist]]))
+        res.transitions = res.evaluations
     elif shard[0] == "comp":
         _, tier, lo, hi = shard
         comp = composition_space(tier)
@@ -678,6 +767,10 @@ def _repro(sources: dict[str, str], entry: str) -> str:
 
 def replay(case: dict[str, Any]) -> list[dict[str, Any]]:
     res = ShardResult()
+    if case["part"] == "tenants":
+        for sig, c, exp, obs in check_tenants(tuple(tuple(o) for o in case["tenant_history"]), None):
+            res.violation(sig, case, exp, obs)
+        return res.violations
     if case["part"] == "nested":
         for sig, c, exp, obs in check_nested(tuple(case["names"]), case["index"], None):
             if c["entry"] == case["entry"]:
